@@ -226,7 +226,7 @@ def obligations(tier):
             ps = names("x", tree_params(tree))
             pre, _, cn = tree_pre(tree, ps)
             obs.append(Ob("flatten-twice/%s/%s" % (str(tree).replace(" ", ""), second), "flatten_twice", dict(tree=tree, S=4, second=second), ps, pre + bound_pre(cn, 0, 4)))
-    if q:
+    if True:
         # two fibers at the transformed depth, one of them empty and one not
         for tree in ([[1], []], [[], [1]]):
             for name, opt in (("flatten_unflatten", {"depth": 1}), ("flattenRanks", {"depth": 1}), ("swapRanks", {"depth": 1})):
